@@ -47,6 +47,10 @@ class VFile(object):
         return (self.exists, self.header, self.nrows, tuple(id(c) for c in self.chunks), self.delim)
 
 
+class ContractViolation(Exception):
+    """the Python layer broke the precondition of the C++ object it drives"""
+
+
 class VFS(object):
     def __init__(self):
         self.files = {}
@@ -155,6 +159,10 @@ def make_module(vfs):
             self._writable()
             if not isinstance(obj, symrec.SRec):
                 raise Unsupported("Write of %r" % (type(obj),))
+            if not obj.flags.c_contiguous:
+                # Records::Write takes PyArray_DATA and copies nrows * rowsize bytes from it: its contract
+                # is a C-contiguous array (decided on the C++ side in props/recxx.h_write_binary)
+                raise ContractViolation("a non-contiguous array is handed to Records::Write, which reads PyArray_DATA as a dense buffer of nrows*rowsize bytes")
             data = obj.reshape(-1) if obj.ndim != 1 else obj
             if self.f.dtype is None:
                 self.f.dtype = data.dtype
